@@ -1,0 +1,33 @@
+//go:build verif
+
+/*
+Copyright 2021 The Kubernetes Authors.
+
+Licensed under the Apache License, Version 2.0 (the "License");
+you may not use this file except in compliance with the License.
+You may obtain a copy of the License at
+
+    http://www.apache.org/licenses/LICENSE-2.0
+
+Unless required by applicable law or agreed to in writing, software
+distributed under the License is distributed on an "AS IS" BASIS,
+WITHOUT WARRANTIES OR CONDITIONS OF ANY KIND, either express or implied.
+See the License for the specific language governing permissions and
+limitations under the License.
+*/
+
+package server
+
+import (
+	"k8s.io/pod-security-admission/admission"
+)
+
+// VerifNewServer builds a Server around the given admission delegate so the
+// verification harness can drive HandleValidate with fake namespace and pod
+// sources. Compiled only with the "verif" build tag.
+func VerifNewServer(delegate *admission.Admission) *Server {
+	return &Server{delegate: delegate}
+}
+
+// VerifMaxRequestSize is the request body limit enforced by HandleValidate.
+const VerifMaxRequestSize = maxRequestSize
